@@ -157,6 +157,7 @@ def check_nodes(ctx: Ctx, job):
         def drive(obj, first_reset=None, limit=40):
             """iterate one epoch; yields observation list"""
             out = []
+            s.begin_op()
             if use_loader:
                 it = iter(obj)
             else:
@@ -185,6 +186,7 @@ def check_nodes(ctx: Ctx, job):
             return
         obj, node = fresh()
         live, image, out = {}, {}, []
+        s.begin_op()
         if use_loader:
             it = iter(obj)
         else:
@@ -201,6 +203,7 @@ def check_nodes(ctx: Ctx, job):
                 nc.shutdown(node)
                 return
             live[p], image[p] = sd, canon(copy.deepcopy(sd))
+            s.begin_op()
             try:
                 out.append(("item", nc.canon_item(next(it))))
             except StopIteration:
